@@ -284,19 +284,34 @@ def run(ctx):
            f"single defects are mirrored correctly but the combination {sorted(bad[0]) if bad else ''} becomes "
            f"{sorted(table[bad[0]]) if bad else ''}: the tests are not independent (reverse complement twice no longer restores the original)",
            rc.lineno)
-    # strands swapped
+    # strands swapped: the strand handed to the new Location, as a function of the old location's strand - one loop iteration is
+    # composed (summarize_block), `loc.strand` is set to each member in turn and the expression is folded (if statement,
+    # conditional expression or lookup table alike)
+    import copy as _copy
+    from ..exprnorm import subst as _subst, fold as _fold, _symconst
     swap = {}
-    for st in stmts(rc):
-        if isinstance(st, ast.If) and "strand" in ast.unparse(st.test):
-            t = [dotted(x).split(".")[-1] for x in ast.walk(st.test) if isinstance(x, ast.Attribute)
-                 and (dotted(x) or "").startswith("Location.Strand.")]
-            b = [dotted(x).split(".")[-1] for y in st.body for x in ast.walk(y) if isinstance(x, ast.Attribute)
-                 and (dotted(x) or "").startswith("Location.Strand.")]
-            o = [dotted(x).split(".")[-1] for y in st.orelse for x in ast.walk(y) if isinstance(x, ast.Attribute)
-                 and (dotted(x) or "").startswith("Location.Strand.")]
-            if t and b and o:
-                swap[t[0]] = b[0]
-                swap[[x for x in ("FORWARD", "REVERSE") if x != t[0]][0]] = o[0]
+    loops_ = [lp for lp in ast.walk(rc) if isinstance(lp, ast.For) and isinstance(lp.target, ast.Name)
+              and any(isinstance(c, ast.Call) and call_name(c) == "Location" for b_ in lp.body for c in ast.walk(b_))]
+    if loops_:
+        lp = loops_[-1]
+        lv = lp.target.id
+        sm_it = summarize_block(lp.body)
+        lc = next(c for b_ in lp.body for c in ast.walk(b_) if isinstance(c, ast.Call) and call_name(c) == "Location")
+        strand_arg = lc.args[2] if len(lc.args) > 2 else next((k.value for k in lc.keywords if k.arg == "strand"), None)
+        if strand_arg is not None and not sm_it.unsupported:
+            e0 = _subst(strand_arg, sm_it.env)
+            for member in ("FORWARD", "REVERSE"):
+                e = _copy.deepcopy(e0)
+
+                class _Set(ast.NodeTransformer):
+                    def visit_Attribute(self, n):
+                        if n.attr == "strand" and isinstance(n.value, ast.Name) and n.value.id == lv:
+                            return ast.parse(f"Location.Strand.{member}", mode="eval").body
+                        return self.generic_visit(n)
+                e = _fold(_Set().visit(e))
+                sc = _symconst(e)
+                if sc is not None and sc[0] == "member":
+                    swap[member] = sc[1].split(".")[-1]
     ctx.ob("R2.strand-swapped", ANN, "AnnotatedSequence.reverse_complement", str(sorted(swap.items())),
            swap == {"FORWARD": "REVERSE", "REVERSE": "FORWARD"}, "strands must be exchanged", rc.lineno)
     # first/last exchange: rev first from loc.last, rev last from loc.first
@@ -311,22 +326,55 @@ def run(ctx):
 
     # ---------------- R2 clipping in Annotation.__getitem__ ------------------
     ag = s.func("Annotation.__getitem__")
-    clip = {}
-    for st in ast.walk(ag):
-        if isinstance(st, ast.If) and isinstance(st.test, ast.Compare) and len(st.test.ops) == 1:
-            flags = [defect(x) for b in st.body for x in ast.walk(b) if defect(x)]
-            assigns = {b.targets[0].id: ast.unparse(b.value) for b in st.body
-                       if isinstance(b, ast.Assign) and isinstance(b.targets[0], ast.Name)}
-            if len(flags) == 1 and flags[0] in ("MISS_LEFT", "MISS_RIGHT"):
-                clip[flags[0]] = (ast.unparse(st.test.left), type(st.test.ops[0]).__name__,
-                                  ast.unparse(st.test.comparators[0]), assigns)
-    ctx.ob("R2.clip-left", ANN, "Annotation.__getitem__", str(clip.get("MISS_LEFT")),
-           clip.get("MISS_LEFT") is not None and clip["MISS_LEFT"][:3] == ("loc.first", "Lt", "i_first")
-           and clip["MISS_LEFT"][3].get("first") == "i_first",
+    # every way a location of the sliced annotation is built: the conditions it is built under and the four arguments of
+    # Location(..), with temporaries substituted (calls_under_paths) and conditional expressions decided both ways
+    # (split_conditionals) - if-statements with updates, conditional expressions, a local helper or a filtered comprehension
+    # give the same set of paths
+    from ..exprnorm import calls_under_paths, split_conditionals, canon as _canon, spec as _spec
+    from ..facts import conjuncts as _conj
+    feat_loops = [lp for lp in ast.walk(ag) if isinstance(lp, ast.For) and any(isinstance(c, ast.Call) and call_name(c) == "Location" for c in ast.walk(lp))]
+    ctx.need(bool(feat_loops), "loop over the features in Annotation.__getitem__")
+    paths = []
+    for conds, c in calls_under_paths(feat_loops[0].body, {"Location"}):
+        for conds2, c2 in split_conditionals(conds, c):
+            cs = set()
+            for t in conds2:
+                for part in _conj(t):
+                    try:
+                        cs.add(repr(_canon(part)))
+                    except Exception:
+                        cs.add("?")
+            args = list(c2.args) + [None] * 4
+            kw = {k.arg: k.value for k in c2.keywords}
+            a_first, a_last = args[0] or kw.get("first"), args[1] or kw.get("last")
+            a_strand, a_defect = args[2] or kw.get("strand"), args[3] or kw.get("defect")
+            def cn(e):
+                try:
+                    return _canon(e) if e is not None else None
+                except Exception:
+                    return "?"
+            paths.append((cs, cn(a_first), cn(a_last), cn(a_strand), cn(a_defect)))
+    def K(t):
+        parts = _conj(ast.parse(t, mode="eval").body)      # the same normal form the path conditions went through
+        assert len(parts) == 1
+        return repr(_canon(parts[0]))
+    V = _spec
+    def flags(d):
+        return set(d[1:]) if isinstance(d, tuple) and d and d[0] == "|" else {d}
+    ML, MR = V("Location.Defect.MISS_LEFT"), V("Location.Defect.MISS_RIGHT")
+    left_yes = [p_ for p_ in paths if K("loc.first < i_first") in p_[0]]
+    left_no = [p_ for p_ in paths if K("not loc.first < i_first") in p_[0]]
+    right_yes = [p_ for p_ in paths if K("loc.last > i_last") in p_[0]]
+    right_no = [p_ for p_ in paths if K("not loc.last > i_last") in p_[0]]
+    ctx.ob("R2.clip-left", ANN, "Annotation.__getitem__", f"{len(left_yes)} clipped / {len(left_no)} unclipped paths",
+           bool(left_yes) and bool(left_no) and len(left_yes) + len(left_no) == len(paths)
+           and all(p_[1] == V("i_first") and ML in flags(p_[4]) for p_ in left_yes)
+           and all(p_[1] == V("loc.first") and ML not in flags(p_[4]) for p_ in left_no),
            "MISS_LEFT must be set exactly when loc.first < i_first, clipping first to i_first", ag.lineno)
-    ctx.ob("R2.clip-right", ANN, "Annotation.__getitem__", str(clip.get("MISS_RIGHT")),
-           clip.get("MISS_RIGHT") is not None and clip["MISS_RIGHT"][:3] == ("loc.last", "Gt", "i_last")
-           and clip["MISS_RIGHT"][3].get("last") == "i_last",
+    ctx.ob("R2.clip-right", ANN, "Annotation.__getitem__", f"{len(right_yes)} clipped / {len(right_no)} unclipped paths",
+           bool(right_yes) and bool(right_no) and len(right_yes) + len(right_no) == len(paths)
+           and all(p_[2] == V("i_last") and MR in flags(p_[4]) for p_ in right_yes)
+           and all(p_[2] == V("loc.last") and MR not in flags(p_[4]) for p_ in right_no),
            "MISS_RIGHT must be set exactly when loc.last > i_last, clipping last to i_last", ag.lineno)
     # i_last = index.stop - 1 (exclusive stop), i_first = index.start
     bounds = {}
@@ -346,21 +394,14 @@ def run(ctx):
            same_expr(benv.get("i_first"), "-sys.maxsize if index.start is None else index.start")
            and same_expr(benv.get("i_last"), "sys.maxsize if index.stop is None else index.stop - 1"),
            "inclusive bounds of the slice must be start and stop - 1", ag.lineno)
-    # scope test
-    scope = [n for n in ast.walk(ag) if isinstance(n, ast.If) and isinstance(n.test, ast.BoolOp)
-             and "i_last" in ast.unparse(n.test) and "i_first" in ast.unparse(n.test)]
-    ok = False
-    if scope:
-        parts = {ast.unparse(v) for v in scope[0].test.values}
-        ok = parts == {"loc.first <= i_last", "loc.last >= i_first"} and isinstance(scope[0].test.op, ast.And)
-    ctx.ob("R2.overlap-test", ANN, "Annotation.__getitem__", "loc.first <= i_last and loc.last >= i_first", ok,
+    # scope test: every location that is built is built under both overlap conditions
+    ctx.ob("R2.overlap-test", ANN, "Annotation.__getitem__", "loc.first <= i_last and loc.last >= i_first",
+           bool(paths) and all(K("loc.first <= i_last") in p_[0] and K("loc.last >= i_first") in p_[0] and "?" not in p_[0] for p_ in paths)
+           and all(len(p_[0]) == 4 for p_ in paths),
            "a location is in scope iff it overlaps the inclusive slice bounds", ag.lineno)
     # the defect accumulates on the original one; strand kept
-    loc_calls = [c for c in calls(ag) if call_name(c) == "Location"]
-    ctx.ob("R2.clip-keeps-strand-and-defect", ANN, "Annotation.__getitem__",
-           ast.unparse(loc_calls[0]) if loc_calls else "-",
-           bool(loc_calls) and [ast.unparse(a) for a in loc_calls[0].args] == ["first", "last", "loc.strand", "defect"]
-           and any(isinstance(st, ast.Assign) and ast.unparse(st) == "defect = loc.defect" for st in stmts(ag)),
+    ctx.ob("R2.clip-keeps-strand-and-defect", ANN, "Annotation.__getitem__", f"{len(paths)} paths build Location(first, last, loc.strand, loc.defect | ..)",
+           bool(paths) and all(p_[3] == V("loc.strand") and V("loc.defect") in flags(p_[4]) and flags(p_[4]) <= {V("loc.defect"), ML, MR} for p_ in paths),
            "the clipped location keeps strand and accumulates on the original defect", ag.lineno)
 
     # ---------------- R3 copy contract --------------------------------------
